@@ -167,16 +167,17 @@ func inlinable(c candidate) string {
 }
 
 type normaliser struct {
-	pkgs   []*packages.Package
-	fset   *token.FileSet
-	cands  map[*types.Func]candidate
-	reason map[*types.Func]string
-	seq    int
-	info   *normInfo
-	edits  map[string][]textEdit // absolute file → edits
-	addImp map[string]map[string]string
-	litOf  map[*types.Var]*ast.FuncLit // parameters of expanded helpers that are bound to a function literal
-	local  map[*types.Var]*localClosure
+	pkgs      []*packages.Package
+	fset      *token.FileSet
+	cands     map[*types.Func]candidate
+	reason    map[*types.Func]string
+	seq       int
+	info      *normInfo
+	edits     map[string][]textEdit // absolute file → edits
+	addImp    map[string]map[string]string
+	litOf     map[*types.Var]*ast.FuncLit // parameters of expanded helpers that are bound to a function literal
+	local     map[*types.Var]*localClosure
+	resultLit map[*types.Var]*localClosure // variables holding the literal an expanded helper returned
 	// the statement being looked at by the driver, the one after it in its list, and whether it ends a result-less function
 	cur, next  ast.Stmt
 	lastOfBody bool
@@ -304,6 +305,238 @@ func localClosures(pkgs []*packages.Package) map[*types.Var]*localClosure {
 	return out
 }
 
+// substituteFuncGlobals: `var g = mk(consts…, func literals…)` with mk a function outside the vocabulary whose body
+// is `return func(…) {…}`, g assigned nowhere else and used only as the function of calls: each call g(args) is
+// spelled mk(…)(args), which the expansion steps then reduce. Building the closure anew at each call is the same
+// as building it once: mk only wraps its (constant) arguments.
+func (N *normaliser) substituteFuncGlobals(pkgs []*packages.Package) {
+	for _, p := range pkgs {
+		if !strings.HasPrefix(p.PkgPath, "github.com/jhalter/mobius") {
+			continue
+		}
+		type glob struct {
+			init *ast.CallExpr
+			file *ast.File
+		}
+		globals := map[*types.Var]glob{}
+		for _, f := range p.Syntax {
+			for _, dcl := range f.Decls {
+				gd, ok := dcl.(*ast.GenDecl)
+				if !ok || gd.Tok != token.VAR {
+					continue
+				}
+				for _, sp := range gd.Specs {
+					vs, ok := sp.(*ast.ValueSpec)
+					if !ok || len(vs.Names) != 1 || len(vs.Values) != 1 {
+						continue
+					}
+					call, ok := vs.Values[0].(*ast.CallExpr)
+					if !ok {
+						continue
+					}
+					o, _ := N.staticCallee(p, call)
+					c, isCand := N.cands[o]
+					if o == nil || !isCand || len(c.fd.Body.List) != 1 {
+						continue
+					}
+					rs, ok := c.fd.Body.List[0].(*ast.ReturnStmt)
+					if !ok || len(rs.Results) != 1 {
+						continue
+					}
+					if _, isLit := ast.Unparen(rs.Results[0]).(*ast.FuncLit); !isLit {
+						continue
+					}
+					pure := true
+					for _, a := range call.Args {
+						switch x := ast.Unparen(a).(type) {
+						case *ast.BasicLit, *ast.FuncLit:
+						default:
+							if tv, ok := p.TypesInfo.Types[x]; !ok || tv.Value == nil {
+								pure = false
+							}
+						}
+					}
+					if v, ok := p.TypesInfo.Defs[vs.Names[0]].(*types.Var); ok && pure {
+						globals[v] = glob{call, f}
+					}
+				}
+			}
+		}
+		if len(globals) == 0 {
+			continue
+		}
+		// every use, in any repository package, must be the function of a call
+		callFun := map[*ast.Ident]*packages.Package{}
+		for _, q := range pkgs {
+			for _, f := range q.Syntax {
+				ast.Inspect(f, func(n ast.Node) bool {
+					if c, ok := n.(*ast.CallExpr); ok {
+						if id, ok := c.Fun.(*ast.Ident); ok {
+							callFun[id] = q
+						}
+					}
+					return true
+				})
+			}
+			for id, o := range q.TypesInfo.Uses {
+				if v, ok := o.(*types.Var); ok {
+					if _, is := globals[v]; is && (callFun[id] == nil || q != p) {
+						delete(globals, v)
+					}
+				}
+			}
+		}
+		for _, f := range p.Syntax {
+			ast.Inspect(f, func(n ast.Node) bool {
+				c, ok := n.(*ast.CallExpr)
+				if !ok {
+					return true
+				}
+				id, ok := c.Fun.(*ast.Ident)
+				if !ok {
+					return true
+				}
+				v, _ := p.TypesInfo.Uses[id].(*types.Var)
+				g, is := globals[v]
+				if !is {
+					return true
+				}
+				capture := ""
+				t := N.rewriteExpr(p, f, &calleeDesc{pkg: p}, map[types.Object]string{}, g.init, c.Pos(), &capture)
+				if capture != "" {
+					return true
+				}
+				fn := N.fset.Position(id.Pos()).Filename
+				N.edits[fn] = append(N.edits[fn], textEdit{N.fset.Position(id.Pos()).Offset, len(id.Name), t})
+				N.info.Inlined = append(N.info.Inlined, "global "+v.Name()+" = "+types.ExprString(g.init.Fun)+"(…)")
+				return true
+			})
+		}
+	}
+}
+
+// resultClosures finds the local variables that hold the function literal an expanded helper returned: the variable
+// is a result variable of an expansion (`__rN_k`), or is defined once from one (`publish, err := __rN_0, __rN_1`);
+// the result variable is only ever assigned nil or one and the same literal; the variable's other uses are calls.
+// A call of such a variable on a path where it is nil would panic, so the literal is what is called.
+func resultClosures(pkgs []*packages.Package) map[*types.Var]*localClosure {
+	out := map[*types.Var]*localClosure{}
+	for _, p := range pkgs {
+		if !strings.HasPrefix(p.PkgPath, "github.com/jhalter/mobius") {
+			continue
+		}
+		lits := map[*types.Var][]*ast.FuncLit{} // result variable → literals assigned
+		bad := map[*types.Var]bool{}
+		alias := map[*types.Var]*types.Var{} // local → the result variable it was defined from
+		aliasDef := map[*types.Var]*ast.AssignStmt{}
+		nDef := map[*types.Var]int{}
+		callFun := map[*ast.Ident]bool{}
+		lhsUse := map[*ast.Ident]bool{}
+		for _, f := range p.Syntax {
+			ast.Inspect(f, func(n ast.Node) bool {
+				switch x := n.(type) {
+				case *ast.CallExpr:
+					if id, ok := x.Fun.(*ast.Ident); ok {
+						callFun[id] = true
+					}
+				case *ast.AssignStmt:
+					if len(x.Lhs) != len(x.Rhs) {
+						for _, l := range x.Lhs {
+							if id, ok := l.(*ast.Ident); ok {
+								if v, ok := p.TypesInfo.ObjectOf(id).(*types.Var); ok {
+									bad[v] = true
+									nDef[v] += 2
+								}
+							}
+						}
+						return true
+					}
+					for i, l := range x.Lhs {
+						id, ok := l.(*ast.Ident)
+						if !ok {
+							continue
+						}
+						v, _ := p.TypesInfo.ObjectOf(id).(*types.Var)
+						if v == nil {
+							continue
+						}
+						lhsUse[id] = true
+						r := ast.Unparen(x.Rhs[i])
+						if strings.HasPrefix(id.Name, "__r") {
+							switch y := r.(type) {
+							case *ast.FuncLit:
+								lits[v] = append(lits[v], y)
+							case *ast.Ident:
+								if y.Name != "nil" {
+									bad[v] = true
+								}
+							default:
+								bad[v] = true
+							}
+							continue
+						}
+						nDef[v]++
+						if rid, ok := r.(*ast.Ident); ok && strings.HasPrefix(rid.Name, "__r") && x.Tok == token.DEFINE {
+							if rv, ok := p.TypesInfo.Uses[rid].(*types.Var); ok {
+								alias[v] = rv
+								aliasDef[v] = x
+							}
+						}
+					}
+				case *ast.UnaryExpr:
+					if x.Op == token.AND {
+						if id, ok := ast.Unparen(x.X).(*ast.Ident); ok {
+							if v, ok := p.TypesInfo.Uses[id].(*types.Var); ok {
+								bad[v] = true
+							}
+						}
+					}
+				}
+				return true
+			})
+		}
+		cand := map[*types.Var]*localClosure{}
+		for rv, ls := range lits {
+			if bad[rv] || len(ls) != 1 {
+				continue
+			}
+			cand[rv] = &localClosure{v: rv, lit: ls[0]}
+		}
+		for v, rv := range alias {
+			if lc := cand[rv]; lc != nil && nDef[v] == 1 && !bad[v] {
+				cand[v] = &localClosure{v: v, lit: lc.lit, def: aliasDef[v]}
+			}
+		}
+		// uses
+		okVar := map[*types.Var]bool{}
+		for v := range cand {
+			okVar[v] = true
+		}
+		for id, o := range p.TypesInfo.Uses {
+			v, ok := o.(*types.Var)
+			if !ok || cand[v] == nil {
+				continue
+			}
+			switch {
+			case callFun[id]:
+				cand[v].uses++
+			case lhsUse[id]:
+			default:
+				// `_ = __rN_k` markers and the `v, err := __rN_0, __rN_1` hand-over are the only other uses allowed
+				if !strings.HasPrefix(v.Name(), "__r") {
+					okVar[v] = false
+				}
+			}
+		}
+		for v, lc := range cand {
+			if okVar[v] && lc.uses > 0 {
+				out[v] = lc
+			}
+		}
+	}
+	return out
+}
+
 // litCallee: call of a local variable that is defined exactly once, by a function literal, and used exactly once
 // (this call) inside a function introduced by an expansion or outside the vocabulary.
 func (N *normaliser) litCallee(pkg *packages.Package, call *ast.CallExpr) *calleeDesc {
@@ -315,7 +548,11 @@ func (N *normaliser) litCallee(pkg *packages.Package, call *ast.CallExpr) *calle
 	if !ok || v.IsField() || v.Parent() == nil || v.Parent() == pkg.Types.Scope() {
 		return nil
 	}
-	if lc := N.local[v]; lc != nil {
+	lc := N.local[v]
+	if lc == nil {
+		lc = N.resultLit[v]
+	}
+	if lc != nil {
 		sig, _ := pkg.TypesInfo.TypeOf(lc.lit).(*types.Signature)
 		if sig == nil {
 			return nil
@@ -867,6 +1104,123 @@ func (N *normaliser) expand(pkg *packages.Package, file *ast.File, encl *ast.Fun
 		}
 		return t
 	}
+	// ---- a function literal that the body returns stays callable after the expansion: the body's own variables
+	// it refers to are hoisted in front of the expansion (under names of their own), so that the literal's body can
+	// be expanded where it is called later on
+	var hoistDecl strings.Builder
+	{
+		var returned []*ast.FuncLit
+		ast.Inspect(d.body, func(n ast.Node) bool {
+			switch x := n.(type) {
+			case *ast.FuncLit:
+				return false
+			case *ast.ReturnStmt:
+				for _, r := range x.Results {
+					if fl, ok := ast.Unparen(r).(*ast.FuncLit); ok {
+						returned = append(returned, fl)
+					}
+				}
+			}
+			return true
+		})
+		hoisted := map[*types.Var]bool{}
+		for _, fl := range returned {
+			ast.Inspect(fl.Body, func(n ast.Node) bool {
+				idn, ok := n.(*ast.Ident)
+				if !ok {
+					return true
+				}
+				v, ok := d.pkg.TypesInfo.Uses[idn].(*types.Var)
+				if !ok || v.IsField() || rename[v] != "" || hoisted[v] {
+					return true
+				}
+				if v.Pos() >= d.body.Pos() && v.Pos() < d.body.End() && !(v.Pos() >= fl.Pos() && v.Pos() < fl.End()) {
+					hoisted[v] = true
+				}
+				return true
+			})
+		}
+		if len(hoisted) > 0 {
+			// the statements of the body's block lists (a hoisted variable must be declared by one of them with :=)
+			inList := map[ast.Stmt]bool{}
+			ast.Inspect(d.body, func(n ast.Node) bool {
+				switch x := n.(type) {
+				case *ast.BlockStmt:
+					for _, st := range x.List {
+						inList[st] = true
+					}
+				case *ast.CaseClause:
+					for _, st := range x.Body {
+						inList[st] = true
+					}
+				case *ast.CommClause:
+					for _, st := range x.Body {
+						inList[st] = true
+					}
+				}
+				return true
+			})
+			declared := map[*types.Var]bool{}
+			why := ""
+			ast.Inspect(d.body, func(n ast.Node) bool {
+				as, ok := n.(*ast.AssignStmt)
+				if !ok || as.Tok != token.DEFINE {
+					return true
+				}
+				any := false
+				for _, l := range as.Lhs {
+					if idn, ok := l.(*ast.Ident); ok {
+						if v, ok := d.pkg.TypesInfo.Defs[idn].(*types.Var); ok && hoisted[v] {
+							any = true
+						}
+					}
+				}
+				if !any {
+					return true
+				}
+				if !inList[as] {
+					why = "a variable the returned function literal uses is declared in a statement header"
+					return false
+				}
+				for _, l := range as.Lhs {
+					idn, ok := l.(*ast.Ident)
+					if !ok {
+						continue
+					}
+					if idn.Name == "_" {
+						continue
+					}
+					if v, ok := d.pkg.TypesInfo.Defs[idn].(*types.Var); ok {
+						if !hoisted[v] {
+							hoisted[v] = true // declared by the same statement: hoisted along
+						}
+						declared[v] = true
+					}
+				}
+				tp := N.fset.Position(as.TokPos).Offset
+				bedits = append(bedits, textEdit{tp, 2, "="})
+				return true
+			})
+			if why != "" {
+				return why
+			}
+			k := 0
+			var names []*types.Var
+			for v := range hoisted {
+				names = append(names, v)
+			}
+			sort.Slice(names, func(i, j int) bool { return names[i].Pos() < names[j].Pos() })
+			for _, v := range names {
+				if !declared[v] {
+					return "a variable the returned function literal uses is not declared with := in a statement list"
+				}
+				nn := fmt.Sprintf("__v%d_%s", id, v.Name())
+				rename[v] = nn
+				fmt.Fprintf(&hoistDecl, "var %s %s; _ = %s; ", nn, N.typeText(pkg, file, v.Type()), nn)
+				k++
+			}
+		}
+	}
 	var walk func(n ast.Node) bool
 	walk = func(n ast.Node) bool {
 		switch x := n.(type) {
@@ -927,7 +1281,6 @@ func (N *normaliser) expand(pkg *packages.Package, file *ast.File, encl *ast.Fun
 	for i := 0; i < nres; i++ {
 		fmt.Fprintf(&sb, "var %s %s; _ = %s; ", rnames[i], N.typeText(pkg, file, sig.Results().At(i).Type()), rnames[i])
 	}
-	sb.WriteString("{ ")
 	if len(lhs) > 0 {
 		fmt.Fprintf(&sb, "%s := %s; ", strings.Join(lhs, ", "), strings.Join(rhs, ", "))
 		blank := make([]string, len(use))
@@ -937,7 +1290,10 @@ func (N *normaliser) expand(pkg *packages.Package, file *ast.File, encl *ast.Fun
 		fmt.Fprintf(&sb, "%s = %s; ", strings.Join(blank, ", "), strings.Join(use, ", "))
 	}
 	sb.WriteString(namedDecl.String())
-	fmt.Fprintf(&sb, "\n%s: switch { default:\n%s\n%sbreak %s\n} }\n", label, body, runDefers(d.body.Rbrace), label)
+	sb.WriteString(hoistDecl.String())
+	// no block around it: every name introduced here is unique, and what a returned function literal refers to
+	// must stay in scope for the rest of the caller's block
+	fmt.Fprintf(&sb, "\n%s: switch { default:\n%s\n%sbreak %s\n}\n", label, body, runDefers(d.body.Rbrace), label)
 	// ---- the call site
 	fn := N.fset.Position(s.Pos()).Filename
 	sOff := N.fset.Position(s.Pos()).Offset
@@ -1001,6 +1357,13 @@ func (N *normaliser) expand(pkg *packages.Package, file *ast.File, encl *ast.Fun
 func (N *normaliser) identEdit(pkg *packages.Package, file *ast.File, d *calleeDesc, rename map[types.Object]string, idn *ast.Ident, at token.Pos, edits *[]textEdit, capture *string) {
 	o := d.pkg.TypesInfo.Uses[idn]
 	if o == nil {
+		// the defining occurrence of a hoisted local
+		if def := d.pkg.TypesInfo.Defs[idn]; def != nil {
+			if nn, ok := rename[def]; ok {
+				p := N.fset.Position(idn.Pos()).Offset
+				*edits = append(*edits, textEdit{p, len(idn.Name), nn})
+			}
+		}
 		return
 	}
 	if nn, ok := rename[o]; ok {
@@ -1253,8 +1616,10 @@ func normalise(repo string, vocab map[string]bool) (*normInfo, error) {
 				})
 			}
 		}
+		N.substituteFuncGlobals(pkgs)
 		N.local = localClosures(pkgs)
-		if len(N.cands) == 0 && len(N.litOf) == 0 && len(N.edits) == 0 && len(N.local) == 0 {
+		N.resultLit = resultClosures(pkgs)
+		if len(N.cands) == 0 && len(N.litOf) == 0 && len(N.edits) == 0 && len(N.local) == 0 && len(N.resultLit) == 0 {
 			break
 		}
 		left := map[string]bool{}
@@ -1334,6 +1699,33 @@ func normalise(repo string, vocab map[string]bool) (*normInfo, error) {
 						}
 					}
 					walkList(fd.Body.List)
+				}
+			}
+		}
+		// a returned literal whose every call was expanded is dropped (its variable then holds nil and is never called)
+		doneLit := map[*ast.FuncLit]bool{}
+		for _, lc := range N.resultLit {
+			if lc.def != nil && lc.expanded > 0 && lc.expanded == lc.uses {
+				// the variable is no longer used: keep the compiler content
+				fn := N.fset.Position(lc.def.Pos()).Filename
+				eo := N.fset.Position(lc.def.End()).Offset
+				N.edits[fn] = append(N.edits[fn], textEdit{eo, 0, "; _ = " + lc.v.Name()})
+			}
+		}
+		for _, lc := range N.resultLit {
+			if lc.expanded > 0 && lc.expanded == lc.uses && !doneLit[lc.lit] {
+				// only when no other variable still calls the same literal
+				other := false
+				for _, lc2 := range N.resultLit {
+					if lc2 != lc && lc2.lit == lc.lit && lc2.expanded != lc2.uses {
+						other = true
+					}
+				}
+				if !other {
+					doneLit[lc.lit] = true
+					lf := N.fset.Position(lc.lit.Pos()).Filename
+					lo, le := N.fset.Position(lc.lit.Pos()).Offset, N.fset.Position(lc.lit.End()).Offset
+					N.edits[lf] = append(N.edits[lf], textEdit{lo, le - lo, "nil"})
 				}
 			}
 		}
